@@ -49,6 +49,7 @@ def propagator(V):
         st.update(xi=xi, w=w, h=h)
         return dict(xi=xi, w=w, dt=h)
     for out in V.run(SD + 'compute_a_and_b', setup):
+        out.replay_info = dict(module='sdof', entry='nigam_and_jennings_response')
         if not out.no_raise():
             continue
         xi, w, h = st['xi'], st['w'], st['h']
@@ -193,10 +194,11 @@ PI_BOUND = ('|6.2831853 - 2 pi| <= 1.2e-9 * 2 pi', None)
 
 
 @unit('C01', 'nigam_and_jennings_response', functions=[SD + 'nigam_and_jennings_response'],
-      cases=[dict(lead_zero=False), dict(lead_zero=True)], modes=('unbounded',), budget_ms=30000)
+      cases=[dict(lead_zero=False), dict(lead_zero=True)], modes=('unbounded',), budget_ms=90000)
 def nigam(V, lead_zero):
     st = {}
     for out in V.run(SD + 'nigam_and_jennings_response', _nj_setup(V, st, lead_zero)):
+        out.replay_info = dict(module='sdof', entry='nigam_and_jennings_response')
         if out.ended is not None:
             out.side_conditions()
             continue
@@ -207,3 +209,47 @@ def nigam(V, lead_zero):
     for out in V.symbolic(lambda: dict()):
         two_pi = T.smul(2, T.pi())
         out.prove('6.2831853-is-2pi-to-1.2e-9-relative', T.sle(T.sabs(T.ssub(W_CONST, two_pi)), T.smul(Q('1.2e-9'), two_pi)))
+
+
+@unit('C01', 'response_series-entry-points', functions=[SD + 'response_series', 'eqsig.single.AccSignal.response_series'],
+      cases=[dict(entry=e, lead_zero=z) for e in ('response_series', 'AccSignal.response_series') for z in (False, True)],
+      modes=('unbounded',), budget_ms=90000)
+def entry_points(V, entry, lead_zero):
+    """The two public entry points return exactly the series of nigam_and_jennings_response (same postconditions)."""
+    st = {}
+    base = _nj_setup(V, st, lead_zero)
+
+    def setup():
+        kw = base()
+        if entry == 'response_series':
+            return dict(motion=kw['acc'], dt=kw['dt'], periods=kw['periods'], xi=kw['xi'])
+        asig = S.make_signal(V, 'AccSignal', kw['acc'], kw['dt'])
+        return ((asig,), dict(response_times=kw['periods'], xi=kw['xi']))
+    fn = SD + 'response_series' if entry == 'response_series' else 'eqsig.single.AccSignal.response_series'
+    for out in V.run(fn, setup):
+        out.replay_info = dict(module='sdof', entry=entry)
+        if out.ended is not None:
+            out.side_conditions()
+            continue
+        if not out.no_raise():
+            continue
+        out.side_conditions()
+        nj_postconditions(V, out, st, lead_zero, out.result)
+
+
+@unit('C01', 'lean/closed-form-satisfies-the-ODE', functions=[], modes=('unbounded',), tier='thorough')
+def lean_lemma(V):
+    """Spec-level lemma (no eqsig code involved): the closed form used as STEP satisfies u'' + 2 xi w u' + w^2 u = f0 + g t and the
+    initial conditions.  Machine-checked by Lean 4.33 + Mathlib (lean/SdofSpec.lean: uSol_deriv, vSol_ode, uSol_init, vSol_init)."""
+    import os
+    import subprocess
+    here = os.path.dirname(os.path.dirname(os.path.abspath(__file__)))
+    for out in V.symbolic(lambda: dict()):
+        try:
+            r = subprocess.run(['lean', os.path.join(here, 'lean', 'SdofSpec.lean')], capture_output=True, text=True, timeout=1500)
+        except (OSError, subprocess.TimeoutExpired) as e:
+            raise T.EngineError('lean could not be run: %s' % e)
+        if r.returncode != 0 or 'error' in (r.stdout + r.stderr):
+            raise T.EngineError('lean rejected lean/SdofSpec.lean: %s' % (r.stdout + r.stderr)[-400:])
+        for thm in ('uSol_deriv', 'vSol_ode', 'uSol_init', 'vSol_init'):
+            V.record(out, 'lean-theorem-' + thm, [], True, 'lemma', None, backend='lean4+mathlib')
